@@ -127,7 +127,9 @@ class Harness:
             kf = getattr(self.mod, "known_filter", None)
             hits = []
             if kf is not None and self.active_known:
-                problems, hits = kf(case, problems, self.active_known)
+                with warnings.catch_warnings():
+                    warnings.simplefilter("ignore")
+                    problems, hits = kf(case, problems, self.active_known)
             if not problems:
                 for h in hits:
                     self.excluded_known[h] += 1
@@ -230,7 +232,9 @@ def run_single(mod, tier, case, active_known):
     problems, hits = ctx.problems, []
     kf = getattr(mod, "known_filter", None)
     if problems and kf is not None and active_known:
-        problems, hits = kf(case, problems, active_known)
+        with warnings.catch_warnings():
+            warnings.simplefilter("ignore")
+            problems, hits = kf(case, problems, active_known)
     return ctx, problems, hits
 
 
